@@ -82,6 +82,9 @@ func c08Curve[P curves.Point[P, F, S], F algebra.FiniteFieldElement[F], S algebr
 		rounds = 3
 	}
 	rs := func() S { return scalarFromBig(sf, r.BigBelow(fieldOrder(sf))) }
+	// quick tier: the 381-bit curve only runs Schnorr, its OR composition and batch Schnorr
+	// (model arithmetic there is ~3x slower); everything in the thorough tier
+	full := c.Thorough() || cv != "bls12381g1"
 	for round := 0; round < rounds; round++ {
 		// ----- Schnorr (base: the generator, or a random base)
 		{
@@ -120,7 +123,9 @@ func c08Curve[P curves.Point[P, F, S], F algebra.FiniteFieldElement[F], S algebr
 
 			// AND^n and OR^n of Schnorr over the same base
 			n := 2 + r.IntN(2)
-			c08And(c, r, cv, prefix, proto, g, n, rs, rX, rA, rZ)
+			if full {
+				c08And(c, r, cv, prefix, proto, g, n, rs, rX, rA, rZ)
+			}
 			for b := 0; b < n; b++ {
 				c08Or(c, r, cv, prefix, proto, g, n, b, rs, rX, rA, rZ)
 			}
@@ -149,7 +154,7 @@ func c08Curve[P curves.Point[P, F, S], F algebra.FiniteFieldElement[F], S algebr
 			type A = *batch_schnorr.Commitment[P, S]
 			type Z = *batch_schnorr.Response[S]
 			cs := &sigCase[X, *batch_schnorr.Witness[S], A, *batch_schnorr.State[S], Z]{
-				tag: "batch." + cv, proto: proto, x: x, w: w, x2: x2, w2: w2, fischlinQuick: true,
+				tag: "batch." + cv, proto: proto, x: x, w: w, x2: x2, w2: w2, fischlinQuick: cv == "k256",
 				line: func(op string, x X, a A, e []byte, z Z, extra string) string {
 					switch op {
 					case "verify":
@@ -165,7 +170,7 @@ func c08Curve[P curves.Point[P, F, S], F algebra.FiniteFieldElement[F], S algebr
 			runSigma(c, r, cs)
 		}
 		// ----- Okamoto
-		{
+		if full {
 			m := 2 + r.IntN(2)
 			gens := make([]P, m)
 			for i := range gens {
@@ -202,7 +207,7 @@ func c08Curve[P curves.Point[P, F, S], F algebra.FiniteFieldElement[F], S algebr
 			rZ := func(z Z) string { return scalarsHex(z.Z.Components()) }
 			line, fl, el := maurerLines(prefix, func(x X) string { return pointStr(x.X) }, func(a A) string { return pointStr(a.A) }, rZ)
 			cs := &sigCase[X, *okamoto.Witness[S], A, *okamoto.State[S], Z]{
-				tag: "okamoto." + cv, proto: proto, x: x, w: w, x2: x2, w2: w2, fischlinQuick: true,
+				tag: "okamoto." + cv, proto: proto, x: x, w: w, x2: x2, w2: w2, fischlinQuick: cv == "ed25519",
 				line: line, fischlinLine: fl, extractLine: el,
 				extract: func(x X, a A, es []sigma.ChallengeBytes, zs []Z) (string, bool, error) {
 					wit, err := proto.Extract(x, a, es, zs)
@@ -215,7 +220,7 @@ func c08Curve[P curves.Point[P, F, S], F algebra.FiniteFieldElement[F], S algebr
 			runSigma(c, r, cs)
 		}
 		// ----- ElGamal commitment opening and elog (= elcomop AND Schnorr)
-		{
+		if full {
 			sk, err := elgamal.SampleSecretKey(curve, r)
 			if err != nil {
 				c.Violation("elgamal.SampleSecretKey failed")
@@ -275,7 +280,7 @@ func c08Curve[P curves.Point[P, F, S], F algebra.FiniteFieldElement[F], S algebr
 			rZ := func(z Z) string { m, l := z.Z.Components(); return pointStr(m) + "," + scalarHex(l) }
 			line, fl, el := maurerLines(prefix, rX, rA, rZ)
 			cs := &sigCase[X, *elcomop.Witness[P, S], A, *elcomop.State[P, S], Z]{
-				tag: "elcomop." + cv, proto: proto, x: x, w: w, x2: x2, w2: w2, fischlinQuick: cv == "k256",
+				tag: "elcomop." + cv, proto: proto, x: x, w: w, x2: x2, w2: w2, fischlinQuick: cv == "k256" && c.Seed%2 == 1,
 				line: line, fischlinLine: fl, extractLine: el,
 				extract: func(x X, a A, es []sigma.ChallengeBytes, zs []Z) (string, bool, error) {
 					wit, err := proto.Extract(x, a, es, zs)
@@ -352,7 +357,7 @@ func c08And[P curves.Point[P, F, S], F algebra.FiniteFieldElement[F], S algebra.
 	type A = sigand.Commitment[*schnorr.Commitment[P, S]]
 	type Z = sigand.Response[*schnorr.Response[S]]
 	cs := &sigCase[X, sigand.Witness[*schnorr.Witness[S]], A, sigand.State[*schnorr.State[S]], Z]{
-		tag: fmt.Sprintf("and.%s", cv), proto: proto, x: x, w: w, x2: x2, w2: w2, heavy: true, fischlinQuick: cv == "k256",
+		tag: fmt.Sprintf("and.%s", cv), proto: proto, x: x, w: w, x2: x2, w2: w2, heavy: true, fischlinQuick: cv == "k256" && c.Seed%3 == 0,
 		line: func(op string, x X, a A, e []byte, z Z, extra string) string {
 			body := fmt.Sprintf("and %s %s %s %s %s", prefix, joinSemi(mapStr(x, rX)), joinSemi(mapStr(a, rA)), eHex(e), joinSemi(mapStr(z, rZ)))
 			switch op {
@@ -395,7 +400,7 @@ func c08Or[P curves.Point[P, F, S], F algebra.FiniteFieldElement[F], S algebra.P
 	type A = sigor.Commitment[*schnorr.Commitment[P, S]]
 	type Z = *sigor.Response[*schnorr.Response[S]]
 	cs := &sigCase[X, sigor.Witness[*schnorr.Witness[S]], A, *sigor.State[*schnorr.State[S], *schnorr.Response[S]], Z]{
-		tag: fmt.Sprintf("or.%s.real%d", cv, real), proto: proto, x: x, w: w, x2: x2, w2: w2, heavy: true, fischlinQuick: cv == "k256" && real == int(c.Seed)%n,
+		tag: fmt.Sprintf("or.%s.real%d", cv, real), proto: proto, x: x, w: w, x2: x2, w2: w2, heavy: true, fischlinQuick: cv == "k256" && real == int(c.Seed)%n && c.Seed%3 != 0,
 		line: func(op string, x X, a A, e []byte, z Z, extra string) string {
 			if z == nil || len(z.E) != len(z.Z) {
 				return ""
